@@ -302,7 +302,10 @@ def oracle_all(case, res):
             prev = st[i - 1]
             if "err" in prev:
                 break
-            if all(e[0] in CLEARS for e in es) and json.dumps(s, sort_keys=True) != json.dumps(prev, sort_keys=True):
+            fk = [skey(f) for f in (prev.get("faces") or [])]
+            twin_faces = len(set(fk)) != len(fk)   # the same face twice: either copy may serve as a cell's face
+            if all(e[0] in CLEARS for e in es) and not twin_faces \
+                    and json.dumps(s, sort_keys=True) != json.dumps(prev, sort_keys=True):
                 diff = [k for k in s if s.get(k) != prev.get(k)] if "err" not in s else ["raised " + s["err"]]
                 fails.append(("rebuild/" + (diff[0] if diff else "?"),
                               "[%s] building again from the built mesh (pass %d, edits %s) changed %s: %s -> %s"
